@@ -3,6 +3,7 @@ package buffer
 import (
 	"encoding/binary"
 	"fmt"
+	"io"
 	"unsafe"
 )
 
@@ -133,6 +134,12 @@ func ReadUint16Slice(r Reader, c []uint16) (n int64, err error) {
 
 	buffered := len(slice) >> 1
 
+	// The reader cannot provide a single full element anymore (the stream ends
+	// inside the slice): report it instead of recursing forever.
+	if buffered == 0 {
+		return int64(len(slice)), io.ErrUnexpectedEOF
+	}
+
 	// If the slice to write on is equal or smaller than the amount peaked
 	if N := len(c); N <= buffered {
 
@@ -208,6 +215,12 @@ func ReadUint32Slice(r Reader, c []uint32) (n int64, err error) {
 
 	buffered := len(slice) >> 2
 
+	// The reader cannot provide a single full element anymore (the stream ends
+	// inside the slice): report it instead of recursing forever.
+	if buffered == 0 {
+		return int64(len(slice)), io.ErrUnexpectedEOF
+	}
+
 	// If the slice to write on is equal or smaller than the amount peaked
 	if N := len(c); N <= buffered {
 
@@ -282,6 +295,12 @@ func ReadUint64Slice(r Reader, c []uint64) (n int64, err error) {
 	}
 
 	buffered := len(slice) >> 3
+
+	// The reader cannot provide a single full element anymore (the stream ends
+	// inside the slice): report it instead of recursing forever.
+	if buffered == 0 {
+		return int64(len(slice)), io.ErrUnexpectedEOF
+	}
 
 	// If the slice to write on is equal or smaller than the amount peaked
 	if N := len(c); N <= buffered {
